@@ -158,12 +158,14 @@ def histogram2d(
     dy = ymax - ymin
     if autoxmin:
         xmin = xmin - 0.05 * dx
+    # (the upper limit is exclusive: it has to end up strictly above the largest value,
+    # also when the padding is lost in rounding for a very narrow range)
     if autoxmax:
-        xmax = xmax + 0.05 * dx
+        xmax = max(xmax + 0.05 * dx, np.nextafter(xmax, np.inf))
     if autoymin:
         ymin = ymin - 0.05 * dy
     if autoymax:
-        ymax = ymax + 0.05 * dy
+        ymax = max(ymax + 0.05 * dy, np.nextafter(ymax, np.inf))
 
     # Construct some bin edges and centers
     if logx:
